@@ -161,7 +161,7 @@ type Engine struct {
 }
 
 func newEngine(prog *ssa.Program, db *SpecDB) *Engine {
-	return &Engine{prog: prog, db: db, maxDepth: 6}
+	return &Engine{prog: prog, db: db, maxDepth: 12}
 }
 
 func (x *Engine) reset(fn string) {
